@@ -216,14 +216,15 @@ func c14Codec(dl time.Time) engine.UnitResult {
 func init() {
 	engine.Register(&engine.Property{
 		ID: "C14", Level: "model_checking",
-		Rule: "E1 over start / callback requests of two browsers and two providers with state in {own, other browser's, previous, empty, garbage} x code in {plain uid, uid with ';;', with ';', mixed-case uids, invalid} x provider error; plus the complete PID codec product (provider strings <= 3 over {a,b} x uid strings <= 4 over {a, A, ;, :, +, %, and the invalid UTF-8 bytes 0xE9, 0xE8}); classes = login / refusal kinds and codec uid classes",
+		Rule: "E1 over start / callback requests of two browsers and two providers with state in {own, other browser's, previous, empty, garbage} x code in {plain uid, uid with ';;', with ';', mixed-case uids, invalid} x provider error; plus the complete PID codec product (provider strings <= 3 over {a,b} x uid strings <= 4 over {a, A, ;, :, +, %, and the invalid UTF-8 bytes 0xE9, 0xE8}); and the shipped Google / Facebook detail decoders over 13 provider ids sent as JSON strings and as bare numbers; classes = login / refusal kinds, codec uid classes, decoder outcomes",
 		Units: func(tier string) []engine.Unit {
 			scs := c14Scenarios(tier)
 			us := e1Units(append(scs, configVariants(scs, tier, "err500", "nil-state", "nomount")...))
 			us = append(us, engine.Unit{Name: "codec", Run: c14Codec})
+			us = append(us, engine.Unit{Name: "provider-decoders", Run: c14Decoders})
 			return us
 		},
-		Need:        []string{"login:plain", "login:mixed-case", "roundtrip:mixed-case", "login:contains-double-semicolon", "refused:provider-error", "refused:state:other-browser", "refused:state:previous", "roundtrip:contains-double-semicolon"},
+		Need:        []string{"decoder:decoded", "login:plain", "login:mixed-case", "roundtrip:mixed-case", "login:contains-double-semicolon", "refused:provider-error", "refused:state:other-browser", "refused:state:previous", "roundtrip:contains-double-semicolon"},
 		Assumptions: []string{"when a callback handler returns an error under the silent default error handler nothing is written, so 'state spent' is only asserted for answered callbacks", "the state is not bound to the provider it was started for (the statement does not require it)"},
 	})
 }
